@@ -14,7 +14,7 @@ Definition opts_of_bits (b : Z) : toFlags_opts :=
      toFlags_opts_EnableValueMapping := Z.testbit b 2; toFlags_opts_EnableHttpMapping := Z.testbit b 3;
      toFlags_opts_String2Int64 := Z.testbit b 4; toFlags_opts_WriteRequireField := Z.testbit b 5;
      toFlags_opts_NoBase64Binary := Z.testbit b 6; toFlags_opts_WriteOptionalField := Z.testbit b 7;
-     toFlags_opts_ReadHttpValueFallback := Z.testbit b 8 |}.
+     toFlags_opts_ReadHttpValueFallback := Z.testbit b 8; toFlags_opts_TracebackRequredOrRootFields := Z.testbit b 9 |}.
 
 Definition go_flag_list : list Z :=
   [F_ALLOW_UNKNOWN; F_WRITE_DEFAULT; F_VALUE_MAPPING; F_HTTP_MAPPING; F_STRING_INT; F_WRITE_REQUIRE; F_NO_BASE64; F_WRITE_OPTIONAL; F_TRACE_BACK].
